@@ -180,9 +180,26 @@ def run_case(case):
     dma = (Vv * np.abs(w)) @ Vv.T
     dma = 0.5 * (dma + dma.T)
 
-    def mag(fn, *a, **k):
+    _amax = {}
+
+    def cond(n):
+        """rounding-noise scale of a density-type quantity built from derivatives up to total order n:
+        1e-6 * max_r sum_ij |gamma_ij| A_i A_j with A_i = max_{|p| <= n} |d^p phi_i(r)| (observed evaluations); with
+        the tolerances 1e-9 / 1e-8 this admits an absolute error of 1e-15 / 1e-14 of the sum of term magnitudes, so
+        that values which vanish by cancellation or symmetry are not judged on their noise."""
+        if n not in _amax:
+            A = 0.0
+            for o in itertools.product(range(n + 1), repeat=3):
+                if sum(o) <= n:
+                    v = call(evaluate_deriv_basis, B(shells), pts, np.array(o))
+                    if isinstance(v, np.ndarray):
+                        A = np.maximum(A, np.abs(v))
+            _amax[n] = 1e-6 * float(np.einsum("ij,in,jn->n", np.abs(dm), A, A).max()) if isinstance(A, np.ndarray) else 0.0
+        return _amax[n]
+
+    def mag(fn, *a, order=2, **k):
         x = call(fn, *a, **k)
-        return float(np.abs(x).max()) if isinstance(x, np.ndarray) and x.size else 0.0
+        return max(float(np.abs(x).max()) if isinstance(x, np.ndarray) and x.size else 0.0, cond(order))
 
     # evaluations
     cmp(call(evaluate_basis, B(sh2), pts2), two(call(evaluate_basis, B(shells), pts), 1), "evaluate_basis", "eval")
@@ -242,10 +259,10 @@ def run_case(case):
                 "evaluate_deriv_basis orders %s under a signed axis permutation" % o, "deriv_signed_perm")
             cmp(call(D.evaluate_deriv_density, o_new, dm2, B(sh2), pts2), sign * call(D.evaluate_deriv_density, o_old, dm, B(shells), pts),
                 "evaluate_deriv_density orders %s under a signed axis permutation" % o, "deriv_density_signed_perm",
-                floor=mag(D.evaluate_deriv_density, o_old, dma, B(shells), pts))
+                floor=mag(D.evaluate_deriv_density, o_old, dma, B(shells), pts, order=int(sum(o))))
     # density family
     cmp(call(D.evaluate_density, dm2, B(sh2), pts2, threshold=1e30), call(D.evaluate_density, dm, B(shells), pts, threshold=1e30), "evaluate_density", "density",
-        floor=mag(D.evaluate_density, dma, B(shells), pts, threshold=1e30))
+        floor=mag(D.evaluate_density, dma, B(shells), pts, threshold=1e30, order=0))
     cmp(call(D.evaluate_density_laplacian, dm2, B(sh2), pts2), call(D.evaluate_density_laplacian, dm, B(shells), pts), "evaluate_density_laplacian", "laplacian",
         floor=mag(D.evaluate_density_laplacian, dma, B(shells), pts))
     cmp(call(D.evaluate_posdef_kinetic_energy_density, dm2, B(sh2), pts2, threshold=1e30), call(D.evaluate_posdef_kinetic_energy_density, dm, B(shells), pts, threshold=1e30),
@@ -253,7 +270,7 @@ def run_case(case):
     g = call(D.evaluate_density_gradient, dm, B(shells), pts)
     if not isinstance(g, cm.Raised):
         cmp(call(D.evaluate_density_gradient, dm2, B(sh2), pts2), g @ R.T, "evaluate_density_gradient (vector law)", "gradient",
-            floor=mag(D.evaluate_density_gradient, dma, B(shells), pts))
+            floor=mag(D.evaluate_density_gradient, dma, B(shells), pts, order=1))
     H = call(D.evaluate_density_hessian, dm, B(shells), pts)
     if not isinstance(H, cm.Raised):
         cmp(call(D.evaluate_density_hessian, dm2, B(sh2), pts2), np.einsum("ka,lb,nab->nkl", R, R, H), "evaluate_density_hessian (tensor law)", "hessian",
@@ -268,11 +285,11 @@ def run_case(case):
     F1 = call(ST.evaluate_ehrenfest_force, dm, B(shells), pts, alpha=a, beta=b)
     if not isinstance(F1, cm.Raised):
         cmp(call(ST.evaluate_ehrenfest_force, dm2, B(sh2), pts2, alpha=a, beta=b), F1 @ R.T, "evaluate_ehrenfest_force (vector law)", "force",
-            floor=mag(ST.evaluate_ehrenfest_force, dma, B(shells), pts, alpha=a, beta=b))
+            floor=mag(ST.evaluate_ehrenfest_force, dma, B(shells), pts, alpha=a, beta=b, order=3))
     H1 = call(ST.evaluate_ehrenfest_hessian, dm, B(shells), pts[:2], alpha=a, beta=b)
     if not isinstance(H1, cm.Raised):
         cmp(call(ST.evaluate_ehrenfest_hessian, dm2, B(sh2), pts2[:2], alpha=a, beta=b), np.einsum("ka,lb,nab->nkl", R, R, H1), "evaluate_ehrenfest_hessian (tensor law)", "ehrenfest_hessian",
-            floor=mag(ST.evaluate_ehrenfest_hessian, dma, B(shells), pts[:2], alpha=a, beta=b))
+            floor=mag(ST.evaluate_ehrenfest_hessian, dma, B(shells), pts[:2], alpha=a, beta=b, order=4))
     if case["eri"]:
         E1 = call(electron_repulsion_integral, B(shells), notation="chemist")
         if not isinstance(E1, cm.Raised):
